@@ -251,6 +251,13 @@ def run(F, ck, tier):
         w_ = const_value(F, fns_['WIDTH'].body)
         lb_ = _c07.loop_bounds(F, fns_['permute'])
         okl = all(b == str(w_) for b in lb_)
+        # ... and it does not go through a truncated view of the state (the rate view `squeeze()`, a sub-slice of `state`)
+        trunc = [x for x in walk(fns_['permute'].body) if (x.get('k') == 'MCall' and x.get('n') == 'squeeze') or
+                 (x.get('k') == 'Index' and x['i'].get('k') == 'Struct' and 'Range' in (x['i'].get('d') or '') and x['i'].get('d', '').split('::')[-1] != 'RangeFull' and
+                  any(y.get('k') == 'Field' and y.get('n') == 'state' for y in walk(x['e'])))]
+        if trunc:
+            okl = False
+            lb_ = lb_ + ['a truncated view of the state (%s)' % ('squeeze()' if trunc[0].get('k') == 'MCall' else 'state[a..b]')]
         ck.ob('R13.8', 'full-width:' + owner_, okl, 'state loops run over WIDTH = %s (%d loop(s))' % (w_, len(lb_)) if okl else
               '%s::permute has a state loop of length %s although the state has %s elements: the capacity part of the sponge state is dropped, so challenges depend only on the last absorbed block' % (owner_, [b for b in lb_ if b != str(w_)], w_),
               '%s:%d' % (fns_['permute'].file, fns_['permute'].line))
